@@ -180,6 +180,7 @@ def run(ctx):
     _c01.r01_6_root_rebinding(ctx)  # the two graph rewrites that used to trip validateTree's assertion
     _c01.r01_7_replace_total(ctx)
     _c10.r10_1_assignment(ctx)  # a program within the 256-slot limit is accepted
+    _c10.r10_5_frame_locals(ctx)  # every frame index the allocator / the calling convention can produce is accepted by frame_dig / frame_bury
     _c17.r17_1_walk(ctx)  # a program without read-before-write is not rejected by the definite-assignment walk
     _c01.r01_4e_flatten_traces(ctx)  # flattening a well-formed block list raises nothing (shared with C01)
     _c01.r01_6e_normalize(ctx)  # nor does normalisation of a well-formed graph
